@@ -35,3 +35,9 @@ package directives
 // Rendering an error never panics, whatever its range is (Location only iterates over the text).
 //@ func (Error).Error
 //@   ensures true
+//
+// Extend widens a range to the smallest range covering both.
+//@ func (*Range).Extend
+//@   modifies r.Start, r.End
+//@   ensures r.Start == (old(r.Start) > r2.Start ? r2.Start : old(r.Start))
+//@   ensures r.End == (old(r.End) < r2.End ? r2.End : old(r.End))
